@@ -270,6 +270,28 @@ def directed_family():
 _BIN = {}
 
 
+def crash_text(out):
+    for line in out.split('\n'):
+        if line.startswith(('panic:', 'fatal error:', 'unexpected fault address', 'SIGBUS', 'SIGSEGV')):
+            return line[:300]
+    return 'process died: ' + out[:200]
+
+
+def harness_fault(out):
+    """the first goroutine of a Go crash report is the one that failed: a harness frame on top of it (below the
+    runtime's own frames) means the harness itself is at fault"""
+    import re
+    m = re.search(r'^goroutine \d+ [^\n]*\[running[^\n]*\]:\n(.*?)(?:\n\n|\Z)', out, re.S | re.M)
+    if not m:
+        return False
+    for line in m.group(1).split('\n'):
+        line = line.strip()
+        if not line or line.startswith(('/', 'runtime.', 'panic(', 'created by', 'sync.', 'testing.')):
+            continue
+        return 'vX02' in line or 'TestVerifX02' in line
+    return False
+
+
 def test_binary(d):
     """the test binary of package server with the harness overlay, built once per check run"""
     if 'bin' in _BIN and os.path.exists(_BIN['bin']):
@@ -309,17 +331,68 @@ def execute(groups, d, tag, timeout=900):
 
     def one(i):
         parts, bs = chunks[i]
-        stim = os.path.join(d, 'stim-%s-%d.json' % (tag, i))
         trace = os.path.join(d, 'trace-%s-%d.ndjson' % (tag, i))
-        tmp = os.path.join(d, 'tmp-%s-%d' % (tag, i))
-        os.makedirs(tmp, exist_ok=True)
-        core.write_json(stim, {'behaviours': bs})
-        env = core.go_env()
-        env.update({'VERIF_STIMULI': stim, 'VERIF_TRACE_OUT': trace, 'TMPDIR': tmp})
-        cmd = [binp, '-test.run', GO_RUN, '-test.timeout', '%ds' % timeout, '-test.count', '1']
-        rc, out, wall = core._run(cmd, os.path.join(core.REPO, 'server'), env, timeout + 60)
-        if rc != 0 or not os.path.exists(trace):
-            raise core.Inconclusive('harness failed rc=%s: %s' % (rc, out[-3000:]))
+        open(trace, 'w').close()
+        todo = list(bs)
+        crashes = 0
+        while todo:
+            stim = os.path.join(d, 'stim-%s-%d-%d.json' % (tag, i, crashes))
+            part = os.path.join(d, 'trace-%s-%d-%d.ndjson' % (tag, i, crashes))
+            tmp = os.path.join(d, 'tmp-%s-%d-%d' % (tag, i, crashes))
+            os.makedirs(tmp, exist_ok=True)
+            core.write_json(stim, {'behaviours': todo})
+            env = core.go_env()
+            env.update({'VERIF_STIMULI': stim, 'VERIF_TRACE_OUT': part, 'TMPDIR': tmp})
+            cmd = [binp, '-test.run', GO_RUN, '-test.timeout', '%ds' % timeout, '-test.count', '1']
+            rc, out, wall = core._run(cmd, os.path.join(core.REPO, 'server'), env, timeout + 60)
+            lines = []
+            if os.path.exists(part):
+                with open(part) as fh:
+                    lines = [x for x in fh.read().split('\n') if x.strip()]
+                if lines:
+                    try:
+                        json.loads(lines[-1])
+                    except ValueError:
+                        lines.pop()     # the line that was being written when the process died
+            shutil.rmtree(tmp, ignore_errors=True)
+            if rc == 0:
+                with open(trace, 'a') as fh:
+                    fh.write(''.join(x + '\n' for x in lines))
+                break
+            # The process died.  A crash of the real code (a panic in a server goroutine, a fatal runtime
+            # error) is an observation that TLC judges; a failure of the harness itself is inconclusive.
+            crashes += 1
+            if rc is None or 'INCONCLUSIVE' in out or crashes > 6 or not lines:
+                raise core.Inconclusive('harness failed rc=%s: %s' % (rc, out[-3000:]))
+            last = json.loads(lines[-1])
+            tid = last['t']
+            idx = next(k for k, b in enumerate(todo) if b['id'] == tid)
+            if last['obs']['res'] == 'hang':
+                # the driver's watchdog recorded the step that did not come back and ended the process; the
+                # remaining behaviours with that call are not executed (each would wait for the watchdog again)
+                with open(trace, 'a') as fh:
+                    fh.write(''.join(x + '\n' for x in lines))
+                if last['a'] == 'Stop':
+                    break       # the run was over
+                rest = [b for b in todo[idx + 1:] if not any(t['a'] == last['a'] for t in b['steps'])]
+                core.log('x02: behaviour %d hung in %s; %d further behaviours with that call skipped'
+                         % (tid, last['a'], len(todo) - idx - 1 - len(rest)))
+                todo = rest
+                continue
+            if harness_fault(out):
+                raise core.Inconclusive('harness failed rc=%s: %s' % (rc, out[-3000:]))
+            done_steps = sum(1 for x in lines if json.loads(x)['t'] == tid) - 1
+            steps = todo[idx]['steps']
+            crashed = steps[done_steps] if done_steps < len(steps) else {'a': 'Cleanup'}
+            ev = dict(last, a=crashed['a'], args={k: v for k, v in crashed.items() if k != 'a'},
+                      obs={'a': crashed['a'], 'res': 'panic', 'err': crash_text(out), 'ms': 0})
+            ev['st'] = dict(last['st'], mf=[False] * len(last['st']['mf']))
+            ev.pop('cfg', None)
+            with open(trace, 'a') as fh:
+                fh.write(''.join(x + '\n' for x in lines))
+                fh.write(json.dumps(ev) + '\n')
+            core.log('x02: the server process died in behaviour %d at step %d (%s)' % (tid, done_steps + 1, crashed['a']))
+            todo = todo[idx + 1:]
         return parts, trace
 
     with concurrent.futures.ThreadPoolExecutor(max_workers=max(PROCS, len(chunks))) as ex:
@@ -459,9 +532,9 @@ def run(rep, tier, seed, replay):
             steps.append(step_of(last))
         c = tlaval.state_var(g['nodes'][root], 'cfg')
         cover.append({'cfg': cfg_of(c), 'steps': steps, 'fam': 'cover'})
-    if quick and len(cover) > 160:
+    if quick and len(cover) > 320:
         # seeded sample; every transition is replayed in the thorough tier
-        cover = rng.sample(cover, 160)
+        cover = rng.sample(cover, 320)
     rep.cov['transition_cover'] = {'edges': nedges, 'covered_by_paths': ncov, 'paths': len(paths), 'replayed': len(cover)}
     behaviours += cover
     lap('transition cover')
@@ -474,7 +547,7 @@ def run(rep, tier, seed, replay):
         b = beh_of_states(st)
         b['fam'] = 'sim'
         pool.append((b, features(st)))
-    chosen, nfeat = select(pool, 1 if quick else 3, 70 if quick else 2400, rng)
+    chosen, nfeat = select(pool, 1 if quick else 3, 100 if quick else 1500, rng)
     rep.cov['simulation'] = {'pool': len(pool), 'features': nfeat, 'replayed': len(chosen)}
     behaviours += chosen
     lap('simulation + selection')
